@@ -101,7 +101,7 @@ def fold_at_call_sites(model: Model, folder: Folder, fi, expr: ast.expr, self_cl
 def check_tags(model: Model, run: Run, folder: Folder) -> bool:
     ok_all = True
     sites = writer_tag_sites(model, folder)
-    run.floor("writer tag sites", len(sites), 30)
+    run.floor("writer tag sites", len(sites), 20)
     for fi, node, tag in sites:
         classes = [fi.cls] if fi.cls else [None]
         if fi.cls:
@@ -110,6 +110,12 @@ def check_tags(model: Model, run: Run, folder: Folder) -> bool:
             try:
                 if isinstance(tag, ast.Name) and tag.id == "tag":
                     continue     # pass-through of the caller's tag parameter (checked at that caller)
+                if isinstance(tag, ast.Name) and tag.id not in fi.params():
+                    # a local bound exactly once: judge its definition
+                    binds = [a.value for a in walk_no_nested(fi.node) if isinstance(a, (ast.Assign, ast.AnnAssign)) and a.value is not None and
+                             any(isinstance(t_, ast.Name) and t_.id == tag.id for t_ in (a.targets if isinstance(a, ast.Assign) else [a.target]))]
+                    if len(binds) == 1:
+                        tag = binds[0]
                 if isinstance(tag, ast.BoolOp) and isinstance(tag.op, ast.Or):
                     # `tag or <default>`: the default must fold
                     v = folder.fold(tag.values[-1], fi.module, None, k)
@@ -368,59 +374,67 @@ def response_ok(model: Model, folder: Folder, q: str, r, p) -> Tuple[bool, str]:
     return True, "ExtendedResponse(message_id=0, protocolError, notice OID)"
 
 
-def encode_origins(model: Model, fi, call: ast.Call, depth: int = 0):
-    """[(class, field, is_loop_element)] for the text encoded by `call` in fi: a field of self, an element of a list field of
-    self, or - when fi is a module-level helper - the same question asked at every call site of the helper. None = unknown."""
-    recv = call.func.value
-    if isinstance(recv, ast.Attribute) and isinstance(recv.value, ast.Name) and recv.value.id == "self" and fi.cls:
-        return [(fi.cls, recv.attr, False)]
-    if isinstance(recv, ast.Attribute) and isinstance(recv.value, ast.Name) and recv.value.id in fi.params() and fi.cls is None and depth < 3:
-        # <param>.<field> in a module-level helper that is handed the message object itself
-        idx = fi.params().index(recv.value.id)
-        out = []
-        n_sites = 0
+def value_origin(model: Model, fi, e: ast.expr, depth: int = 0):
+    """[(class, field, is_loop_element)] for the text value `e` in function fi: `self.f`, an element of `self.f` (loop variable),
+    `<param>.f` / `<param>` of a module-level helper resolved at every call site of the helper. None = unknown."""
+    if depth > 3:
+        return None
+    if isinstance(e, ast.Attribute) and isinstance(e.value, ast.Name) and e.value.id == "self" and fi.cls:
+        return [(fi.cls, e.attr, False)]
+    params = fi.params()
+
+    def at_call_sites(pname: str, attr: Optional[str]):
+        idx = params.index(pname)
+        out, n_sites = [], 0
         for cq, cfi in model.functions.items():
-            if isinstance(cfi.node, ast.Lambda):
+            if isinstance(cfi.node, ast.Lambda) or fi.name not in model.modules[cfi.module].source:
                 continue
             for n in walk_no_nested(cfi.node):
-                if isinstance(n, ast.Call) and isinstance(n.func, ast.Name) and model.resolve_name(cfi.module, n.func.id) == fi.qualname:
-                    n_sites += 1
-                    a = n.args[idx] if idx < len(n.args) else next((k.value for k in n.keywords if k.arg == recv.value.id), None)
+                if not isinstance(n, ast.Call):
+                    continue
+                f = n.func
+                hit = (isinstance(f, ast.Name) and model.resolve_name(cfi.module, f.id) == fi.qualname) or \
+                      (isinstance(f, ast.Attribute) and f.attr == fi.name and fi.cls is not None and isinstance(f.value, ast.Name) and f.value.id in ("self", "cls") and
+                       cfi.cls is not None and model.find_method(cfi.cls, f.attr) is fi)
+                if not hit:
+                    continue
+                n_sites += 1
+                off = 1 if (fi.cls and not fi.is_staticmethod and isinstance(f, ast.Attribute)) else 0
+                i = idx - off
+                a = n.args[i] if 0 <= i < len(n.args) else next((k.value for k in n.keywords if k.arg == pname), None)
+                if a is None:
+                    return None
+                if attr is not None:
                     if isinstance(a, ast.Name) and a.id == "self" and cfi.cls:
-                        out.append((cfi.cls, recv.attr, False))
-                    else:
-                        return None
+                        out.append((cfi.cls, attr, False))
+                        continue
+                    return None
+                sub = value_origin(model, cfi, a, depth + 1)
+                if sub is None:
+                    return None
+                out += sub
         return out if n_sites else None
-    if not isinstance(recv, ast.Name):
+
+    if isinstance(e, ast.Attribute) and isinstance(e.value, ast.Name) and e.value.id in params and e.value.id != "self":
+        return at_call_sites(e.value.id, e.attr)
+    if not isinstance(e, ast.Name):
         return None
-    src: Optional[ast.expr] = None
-    loop = False
+    # loop variable over something
     for f in walk_no_nested(fi.node):
-        if isinstance(f, ast.For) and isinstance(f.target, ast.Name) and f.target.id == recv.id:
-            src, loop = f.iter, True
-    if src is None and recv.id in fi.params():
-        src = recv
-    if src is None:
-        return None
-    if isinstance(src, ast.Attribute) and isinstance(src.value, ast.Name) and src.value.id == "self" and fi.cls:
-        return [(fi.cls, src.attr, loop)]
-    if isinstance(src, ast.Name) and src.id in fi.params() and fi.cls is None and depth < 3:
-        idx = fi.params().index(src.id)
-        out = []
-        n_sites = 0
-        for cq, cfi in model.functions.items():
-            if isinstance(cfi.node, ast.Lambda):
-                continue
-            for n in walk_no_nested(cfi.node):
-                if isinstance(n, ast.Call) and isinstance(n.func, ast.Name) and model.resolve_name(cfi.module, n.func.id) == fi.qualname:
-                    n_sites += 1
-                    a = n.args[idx] if idx < len(n.args) else next((k.value for k in n.keywords if k.arg == src.id), None)
-                    if isinstance(a, ast.Attribute) and isinstance(a.value, ast.Name) and a.value.id == "self" and cfi.cls:
-                        out.append((cfi.cls, a.attr, loop))
-                    else:
-                        return None
-        return out if n_sites else None
+        if isinstance(f, ast.For) and isinstance(f.target, ast.Name) and f.target.id == e.id:
+            src = value_origin(model, fi, f.iter, depth + 1)
+            return None if src is None else [(c, fld, True) for c, fld, _ in src]
+    stores = [a for a in walk_no_nested(fi.node) if isinstance(a, (ast.Assign, ast.AnnAssign)) and a.value is not None and
+              any(isinstance(t, ast.Name) and t.id == e.id for t in (a.targets if isinstance(a, ast.Assign) else [a.target]))]
+    if len(stores) == 1 and e.id not in params:
+        return value_origin(model, fi, stores[0].value, depth + 1)
+    if e.id in params and not stores:
+        return at_call_sites(e.id, None)
     return None
+
+
+def encode_origins(model: Model, fi, call: ast.Call, depth: int = 0):
+    return value_origin(model, fi, call.func.value, depth)
 
 
 def encode_discharge(model: Model, ex, q: str, e: Esc, responses: List[Obj], folder: Folder, mr: MayRaise, run: Run) -> Tuple[bool, str]:
